@@ -17,7 +17,7 @@ RULE = ("E1: full product of 10 session-key classes (generic, all-zero, last byt
         "bytes 00, CRC-16(key||version) low / both bytes 00, all FF; found by deterministic search with the reference CRC) x every ordered non-empty "
         "subset of {customer-key, ECC, update} blocks (15) x every subset of matching decryptors that opens >= 1 block, with every single deviation "
         "(thorough: pairs) over key selector 0..3, version {0,1,7F,FF}, security code, customer key present, content shape {one, encrypted "
-        "configuration, empty, payload with zero run}, and seed-derived extra keys. Oracle: session key, auth blocks in file order (typed and equal "
+        "configuration, empty, payload with zero run}, and seed-derived extra keys; ('eph', ...) = every ECC-containing block order x decryptor subset with the ephemeral key forced into the classes X/Y/shared-x with leading 00 / 04 / FF bytes and scalars 1, n-1. Oracle: session key, auth blocks in file order (typed and equal "
         "for opened blocks, byte-identical UnknownAuthBlock otherwise), components; configuration blob[:declared] == original. Distinct = case "
         "tuples; non-trivial = all.")
 ASSUMPTIONS = [
@@ -118,6 +118,17 @@ def cases(ctx):
                     if v[5] and ki != 0:
                         continue
                     yield ("rt", ki, oi, decs) + v
+    # ephemeral ECC key forced (through the randomness seam) into edge classes found with the reference curve
+    for oi, order in enumerate(ORDERS):
+        if "ecc" in order:
+            for decs in dec_subsets(order):
+                if "ecc" in decs:
+                    for cls in EPH_CLASSES:
+                        for ki in (0, 2):
+                            yield ("eph", ki, oi, decs, cls)
+
+
+EPH_CLASSES = ["X-leading-00", "X-leading-04", "Y-leading-00", "X-leading-FF", "shared-x-leading-00", "e=1", "e=n-1"]
 
 
 def code_of(ctx, i):
@@ -125,6 +136,14 @@ def code_of(ctx, i):
 
 
 def run_case(ctx, case):
+    preset = ()
+    if case[0] == "eph":
+        from . import c09
+        e = c09.eph_scalar(ctx, "c02", case[4], d=FX.ecc_scalar(ctx, 3))
+        if e is None:
+            return Outcome("no-scalar-of-this-class-found", False)
+        preset = [(e - 1).to_bytes(32, "big") + b"\x00"]
+        case = ("rt", case[1], case[2], case[3]) + tuple(0 for _ in dims(ctx))
     _, ki, oi, decs = case[:4]
     d = decode(dims(ctx), case[4:])
     name, key, vover = key_classes(ctx)[ki]
@@ -150,7 +169,7 @@ def run_case(ctx, case):
     o = Outcome("roundtrip-ok", True)
     s = io.StringIO()
     try:
-        with DetRandom("c02-%r" % (case,)):
+        with DetRandom("c02-%r" % (case,), preset=preset):
             bec.write_file(s, [mk("cust"), mk("ecc")])
     except Exception as e:
         o.cls = "write-raises"
